@@ -51,6 +51,7 @@ details + proposed patches in selftest/C03/proposed_fixes_gb.patch.txt):
   copy-compiles-differently:pickle:sql            (anonymous label of a scalar subquery exported by a CTE)
 """
 from __future__ import annotations
+import re
 
 META = {
     "id": "C03",
@@ -737,6 +738,12 @@ def _twin_checks(ctx, env, G, ds, dnames, nodes, spec, rng, _value, sa_exc):
                 va, vb = _value(a, ds[dn]), _value(b, ds[dn])
                 if va != vb:
                     what = "sql" if va[0] != vb[0] else "params"
+                    if what == "sql" and isinstance(va[0], str) and isinstance(vb[0], str):
+                        # the same statement up to the NAMES of generated column labels
+                        # ("... AS ta_x_1" vs "... AS adp_x_1"): a separate, registered mechanism
+                        strip = re.compile(r"\bAS [A-Za-z_][A-Za-z0-9_]*")
+                        if strip.sub("AS _", va[0]) == strip.sub("AS _", vb[0]) and va[1:] == vb[1:]:
+                            what = "sql-generated-label-names-only"
                     ctx.violation(
                         f"transformed-copy-of-compiled-differs-from-fresh:{tname}:{what}",
                         f"{dn}: {tname} of statement #{i} ({n['op']}) after it had been compiled gives {va!r:.300}; the same "
